@@ -240,6 +240,10 @@ def c12(tier):
     scs += extra_phase_programs(g, tier)
     scs += misuse_programs(g)
     run_writer_programs(rep, wd, scs, "random", neg_control=False)
+    # ExtraWalk.tla: caller-supplied extra data is accepted exactly when it is a sequence of complete, permitted records - every field of
+    # the byte-level model through end_extra_data() (local and central-only phase), judged by Trace_Writer AND by ExtraWalk!Accepts
+    mc_extrawalk(rep, wd, mutants=(("guard_lt", "ValidateExact"), ("stale_left", "ValidateExact"), ("tail_ok", "ValidateExact")))
+    run_extrawalk_writer(rep, wd, extrawalk_cases(wd), "extrawalk", tier == "quick")
     return rep.finish("model_checking",
                       "MC_Writer fix-point over all call orders (<= MaxFiles entries); TLC-simulated behaviours of the "
                       "model and seeded random call sequences (legal or not) executed on the real ZipWriter and "
@@ -434,6 +438,9 @@ def c17(tier):
         ops.append({"op": "Finish"})
         scs.append({"sc": "xd%05d" % i, "ops": ops})
     run_writer_programs(rep, wd, scs, "align")
+    # every ACCEPTED field of the byte-level extra-data model (ExtraWalk.tla), in the local and in the central-only phase: it must land
+    # verbatim where requested (Trace_Writer compares the lexed local and central extra fields record by record)
+    run_extrawalk_writer(rep, wd, [c for c in extrawalk_cases(wd) if c["accepts"]], "extrawalk", tier == "quick")
     rep.notes["alignments_covered"] = len(aligns)
     return rep.finish("model_checking",
                       "start_file_aligned for each alignment value at varied preceding offsets (quick: 0..300, powers of two "
@@ -747,6 +754,120 @@ def producer_cases(wd, cfgname, tag):
     return cases
 
 
+EXTRAWALK_MUTANTS = (("aes_no_account", "OnBoundary"), ("skip_declared", "OnBoundary"), ("guard_lt", "ValidateExact"), ("stale_left", "ValidateExact"),
+                     ("tail_ok", "ValidateExact"))
+
+
+def mc_extrawalk(rep, wd, mutants=EXTRAWALK_MUTANTS):
+    """ExtraWalk.tla: the byte-level walk over an extra field (reader) and the validation of caller-supplied extra data (writer)"""
+    r = vlib.tlc_mc("MC_ExtraWalk.tla", "MC_ExtraWalk.cfg", wd, timeout=1200, tag="mc-extrawalk")
+    rep.add_mc(r, "MC_ExtraWalk.cfg")
+    if r["error"]:
+        rep.spec_violation(r, "MC_ExtraWalk.cfg")
+    rs = vlib.tlc_mc_many([("MC_ExtraWalk.tla", "MC_ExtraWalk_%s.cfg" % b, "mc-xw-" + b) for b, _ in mutants], wd)
+    for (bug, inv), r in zip(mutants, rs):
+        found = bool(r["error"]) and inv in r["error"]
+        rep.neg_controls.append({"spec_mutant": "extrawalk:" + bug, "expected_violation": inv, "found": found})
+        if not found:
+            raise ToolTrouble("spec mutant %s of ExtraWalk not detected" % bug)
+
+
+_XW_CACHE = {}
+
+
+def extrawalk_cases(wd):
+    """every field TLC enumerates in MC_ExtraWalk (Emit), as dicts"""
+    if wd in _XW_CACHE:
+        return _XW_CACHE[wd]
+    cfg = os.path.join(wd, "MC_ExtraWalk_emit.cfg")
+    with open(os.path.join(vlib.SPEC, "MC_ExtraWalk.cfg")) as f:
+        txt = f.read().replace("Emit = FALSE", "Emit = TRUE").replace("PROPERTY Progress\n", "") + "INVARIANT EmitCase\n"
+    with open(cfg, "w") as f:
+        f.write(txt)
+    r = vlib.tlc_run("MC_ExtraWalk.tla", cfg, wd, workers=1, timeout=1800, tag="emit-xw")
+    cases, seen = [], set()
+    for m in re.finditer(r'<<"CASE", "(.*)">>', r["out"]):
+        s_ = m.group(1)
+        if s_ in seen:
+            continue
+        seen.add(s_)
+        cases.append(json.loads(json.loads('"' + s_ + '"')))
+    if not cases:
+        log(r["out"][-2000:])
+        raise ToolTrouble("MC_ExtraWalk emitted no cases")
+    _XW_CACHE[wd] = cases
+    return cases
+
+
+def extrawalk_reader_scenario(sc, c, k=0):
+    """a field of MC_ExtraWalk as the CENTRAL extra field of a real entry (independent builder), between two ordinary entries"""
+    import refzip
+    sent = [f for f in ("us", "cs", "off") if c[f]]
+    lay = []
+    has_aes = any(r["id"] == "aes" and r["dlen"] == 7 for r in c["recs"])
+    for r in c["recs"]:
+        if r["id"] == "z64":
+            lay.append(("z64", r["nvals"] - len(sent)))
+        elif r["id"] == "aes":
+            lay.append(("aes", r["dlen"]))
+        else:
+            lay.append((0xcafe if r["id"] == "oth" else 0x000a, bytes((7 * j + k) % 251 for j in range(r["dlen"]))))
+    cut = bool(c["recs"]) and c["recs"][-1]["body"] < c["recs"][-1]["dlen"]
+    e = {"name": b"walk/target", "method": (0, 8)[k % 2], "data": b"extra walk target %d " % k * 3, "cx_layout": lay, "sent": sent,
+         "cx_tail": bytes([0xfe, 0xca, 0x05][:c["tail"]]), "cx_cut": cut}
+    pwq = None
+    if has_aes:
+        e["enc"] = ("aes", 1 + k % 2, 1 + k % 3, b"walk-pw")
+        pwq = [{"i": 1, "kind": "right", "pw": b"walk-pw".hex()}]
+    d = {"entries": [{"name": b"walk/before", "method": 8, "data": b"before " * 9}, e, {"name": b"walk/after", "method": 0, "data": b"after"}]}
+    return gen_reader.scenario(sc, d, pwq=pwq)[0]
+
+
+def extrawalk_writer_program(sc, c, central):
+    ids = {"oth": 0xbeef, "rsv": 0x000a, "z64": 1, "aes": 0x9901}
+    recs = [{"id": ids[r["id"]], "dsz": r["dlen"], "asz": r["body"]} for r in c["recs"]]
+    if c["tail"]:
+        recs.append({"id": 0xbeef, "dsz": 0, "hl": c["tail"]})
+    ops = [{"op": "New"}, {"op": "StartFile", "name": "before", "method": 8}, {"op": "Write", "data": "before"},
+           {"op": "StartFileExtra", "name": "x", "method": 8}]
+    if central:
+        ops += [{"op": "WriteExtra", "recs": [{"id": 0xd00d, "dsz": 2}]}, {"op": "EndLocalStartCentral"}]
+    ops += [{"op": "WriteExtra", "recs": recs}, {"op": "EndExtra"}, {"op": "Write", "data": "payload"},
+            {"op": "StartFile", "name": "after", "method": 0}, {"op": "Write", "data": "after"}, {"op": "Finish"}]
+    return {"sc": sc, "ops": ops, "_accepts": c["accepts"], "_central": central}
+
+
+def run_extrawalk_writer(rep, wd, cases, label, quick):
+    """the validation of caller-supplied extra data on every field of the model (record sequences only matter: deduplicated)"""
+    seen, progs = set(), []
+    for c in cases:
+        key = json.dumps([c["recs"], c["tail"]])
+        if key in seen:
+            continue
+        seen.add(key)
+        progs.append(extrawalk_writer_program("xw%05d" % len(progs), c, central=(len(progs) % 2 == 1)))
+    if quick and len(progs) > 1500:
+        progs = random.Random(vlib.seed() * 31 + 5).sample(progs, 1500)
+    accepts = {p_["sc"]: p_.pop("_accepts") for p_ in progs}
+    for p_ in progs:
+        p_.pop("_central")
+    run_writer_programs(rep, wd, progs, label, neg_control=False)
+    # the model's own verdict (ExtraWalk!Accepts) against what the real writer answered
+    evs = vlib.read_ndjson(os.path.join(wd, label + "-trace.ndjson"))
+    seen_sc, bad = set(), []
+    for e in evs:
+        if e.get("ev") == "EndExtra" and e["sc"] not in seen_sc:
+            seen_sc.add(e["sc"])
+            if (e.get("r") == "ok") != accepts[e["sc"]]:
+                bad.append((e["sc"], e.get("r")))
+    for sc_, r_ in bad[:12]:
+        prog = next(p_ for p_ in progs if p_["sc"] == sc_)
+        path = vlib.save_replay(rep.pid, "%s-%s" % (label, sc_), {"kind": "ExtraWalk!Accepts disagrees with end_extra_data()", "model_accepts": accepts[sc_],
+                                                                  "observed": r_, "program": prog})
+        rep.violations.append((path, "extra data: the model %s it, the writer answered %s" % ("accepts" if accepts[sc_] else "refuses", r_)))
+    rep.notes[label + "_programs"] = len(progs)
+
+
 PRODUCER_MUTANTS = ("cs_first", "either_both", "always_all", "first_record_only", "central_xlen", "local_sizes", "first_dup", "aes_swallows_next")
 
 
@@ -823,6 +944,18 @@ def c03(tier):
         sw.append(d)
     run_reader_scenarios(rep, wd, sw, "sweeps", neg_control=False)
     rep.notes["sweep_events"] = sum(1 for e in vlib.read_ndjson(os.path.join(wd, "sweeps-trace.ndjson")) if e.get("ev") == "RSweep")
+    # ExtraWalk.tla: the reader's walk over an extra field at BYTE granularity (cursor on record boundaries, every ZIP64 value and the AE-x
+    # record understood; five mutants refuted) and every field of that model - well formed or not - as the central extra field of a real
+    # entry of the independent builder, opened by the real reader (well-formed ones must read back exactly; none may panic)
+    mc_extrawalk(rep, wd)
+    xw = extrawalk_cases(wd)
+    wf = [c for c in xw if c["wf"]]
+    mal = [c for c in xw if not c["wf"]]
+    rep.notes["extrawalk_fields"] = {"model": len(xw), "well_formed": len(wf)}
+    if tier == "quick":
+        wf = rnd.sample(wf, min(len(wf), 2500))
+        mal = rnd.sample(mal, min(len(mal), 1500))
+    run_reader_scenarios(rep, wd, [extrawalk_reader_scenario("xw%05d" % i, c, i) for i, c in enumerate(wf + mal)], "extrawalk", neg_control=False)
     # Producer.tla: the field-level reader model decodes every layout an independent producer may emit (ReaderFaithful; seven
     # reader mutants found); every realisable archive of the one-entry model, and of the two-entry model (quick: a seeded sample),
     # is materialised by the independent builder and opened by the real reader
